@@ -1022,7 +1022,8 @@ class Drawer:
             parts.append('EIO=' + eio)
         if sidv is not None:
             parts.append('sid=' + sidv)
-        j = d(st.sampled_from([None, None, None, '0', '7', 'x', '']))
+        j = d(st.sampled_from([None, None, None, '0', '7', 'x', '', '%C2%B2', '1%C2%B2', '%D9%A3',
+                               '+1', '%201', '1_0', '-1', '1e3']))
         if j is not None:
             parts.append('j=' + j)
         if d(st.integers(0, 9)) == 0:
